@@ -711,3 +711,19 @@ Proof.
   destruct (world_apply vr s b st) as [s1 b1] eqn:E.
   rewrite IH. pose proof (world_apply_total vr s b st d) as T. rewrite E in T. exact T.
 Qed.
+
+(* the bank part of any world step (vending, open-edition, base): attach, then apply *)
+Lemma attach_apply_balances sender contract funds ms b b1 b2 :
+  attach b sender contract funds = Ok b1 -> apply_bmsgs contract b1 ms = Ok b2 ->
+  (forall c, In c funds -> c_amount c <> 0) /\
+  (forall a d,
+      bal_get b2 a d + (if a =? sender then paid funds d else 0) + (if a =? contract then debits ms d else 0)
+      = bal_get b a d + (if a =? contract then paid funds d else 0) + credits ms a d) /\
+  (forall d, total b2 d = total b d).
+Proof.
+  intros Hat Hap. split; [ eapply attach_nonzero; eauto | ]. split.
+  - intros a d. pose proof (attach_get _ _ _ _ _ Hat a d) as T1.
+    pose proof (apply_bmsgs_get _ _ _ _ Hap a d) as T2.
+    destruct (a =? sender); destruct (a =? contract); lia.
+  - intros d. rewrite (apply_bmsgs_total _ _ _ _ Hap d). eapply attach_total; eauto.
+Qed.
